@@ -120,7 +120,7 @@ fn run_case(ctx: &mut Ctx, scn: &Scn, tag: &str) {
     let mut pending: Option<StepRec> = None;
     let mut first: Option<Snap> = None;
     let mut last: Option<Snap> = None;
-    let res = ctx.guard(|| run_stepped(&mut vm, ready, 100_000, |vm, stop| {
+    let res = ctx.guard(|| run_stepped(&mut vm, ready, 20_000, |vm, stop| {
         if world.is_none() {
             let ib = vm.initial_balances();
             let mut table: Vec<AssetId> = ib.non_retryable.keys().cloned().collect();
@@ -129,11 +129,18 @@ fn run_case(ctx: &mut Ctx, scn: &Scn, tag: &str) {
             world = Some(World { base, watch: watch.clone(), cids: cids.clone(), table });
         }
         let w = world.as_ref().unwrap();
-        let s = snap(vm, w);
+        // full snapshots only around asset ops (other instructions cannot move assets); cheap fields always fresh
+        let word = current_word(vm).unwrap_or(0);
+        let is_asset_op = |wd: u32| { use fuel_asm::Opcode as O; let o = (wd >> 24) as u8; [O::RET, O::RETD, O::BURN, O::CALL, O::MINT, O::TR, O::TRO, O::SMO, O::RVRT].iter().any(|x| *x as u8 == o) };
+        let need_full = first.is_none() || matches!(stop, Stop::End) || pending.as_ref().map(|p| p.op.is_some()).unwrap_or(false) || is_asset_op(word);
+        let s = if need_full { snap(vm, w) } else {
+            let mut c = last.clone().unwrap();
+            c.depth = saved_cgas(vm).len(); c.ctx = current_contract(vm); c.receipts = vm.receipts().len();
+            c
+        };
         if first.is_none() { first = Some(s.clone()); }
         if let Some(mut p) = pending.take() { p.after = Some(s.clone()); steps.push(p); }
         if let Stop::Before = stop {
-            let word = current_word(vm).unwrap_or(0);
             let (mn, args) = match Instruction::try_from(word) {
                 Ok(i) => {
                     let (opc, raw) = g::unpack(i);
